@@ -300,11 +300,19 @@ class TerminalDevice(Device):
                 )
 
         if format_string:
-            formatter = PrintUsingFormatter(format_string.value)
-            new_line = printables[-1] not in [comma, semicolon]
+            new_line = not printables or \
+                printables[-1] not in [comma, semicolon]
             printables = [a.value for a in printables
                           if a != semicolon and a != comma]
-            self.impl.terminal_print(formatter.format(printables))
+            try:
+                formatter = PrintUsingFormatter(format_string.value)
+                text = formatter.format(printables)
+            except (RuntimeError, IndexError, TypeError, ValueError) as e:
+                self._device_error(
+                    error_code=Device.Error.BAD_ARG_VALUE,
+                    error_msg=f'Invalid PRINT USING format or values: {e}',
+                )
+            self.impl.terminal_print(text)
             if new_line:
                 self.impl.terminal_print('\r\n')
         else:
